@@ -30,6 +30,47 @@ CLAIM_HARDEN = ("The generators returned by the order functions are also consume
                 "chained same-chip constraints): any undocumented exception or a call that does not return is reported; "
                 "two annealing kernels are driven alternately.")
 
+NOTE_HARDEN = (
+    "HARDENING CHECKLIST - what is validated by which stream, and what is left out and why. "
+    "(1) Argument kinds: vertex / resource identifiers of every hashable kind (c02_names, all streams); resource "
+    "quantities up to 2**100 (variants: scale) for every placer except the C annealing kernel, an external binary "
+    "working on C ints (quantities >= 2**31 raise OverflowError inside rig_c_sa: outside /repo, reported, not generated "
+    "for that kernel); dict / OrderedDict / subclasses for vertices_resources and resource dictionaries, subclasses of "
+    "Machine, Net and the constraint classes, Net(source, single_sink), tuple for SameChipConstraint.vertices "
+    "(variants: containers). NOT generated: nets / constraints as tuples or iterators (documented as lists: the placers "
+    "copy them with [:] and assign items - a tuple raises TypeError in every placer); Net sinks other than a list are BY "
+    "DOCUMENTATION a single vertex; bool / IntEnum / numpy integers as resource quantities or chip coordinates (rig never "
+    "passes them to the placers and documents ints); locations other than (x, y) tuples. "
+    "(2) Optional parameters: sequential.place vertex_order / chip_order (list, tuple, generator, keys view, dict, "
+    "iterator; positional and keyword), breadth_first.place chip_order, hilbert.place breadth_first (both values, "
+    "positional and keyword), rand.place random (positional, keyword, default = the random module, patched to record), "
+    "sa.place effort / random / on_temperature_change (callback, None) / kernel (Python, C, default) / kernel_kwargs "
+    "(given, default) positional, keyword and through rig.place_and_route.place; Net weight, "
+    "ReserveResourceConstraint location, Machine dead_chips / dead_links / chip_resource_exceptions. Left at the "
+    "default: hilbert(level, angle, s) angle and s (documented 'for internal use only'); PythonKernel no_warn=False "
+    "(only prints a warning). "
+    "(3) Scale: c02_harden (S); the Hilbert placer walks 4**ceil(log2(max(w, h))) points before it gives up, so 1xN "
+    "machines with N in the thousands are run with placeable problems only (an unplaceable one takes minutes: slow, "
+    "not wrong); the Lean oracle is quadratic in the number of vertices, so the 65,537-vertex and the 1100-deep chain "
+    "cases are judged on exceptions, non-return and the number of placed vertices only (tagged). "
+    "(4) Histories: c02_sessions (same objects, repeated calls, two problems alternately, machines differing in one "
+    "aspect in both orders, placer modules reloaded at the start of every history, replays carry the whole history and "
+    "are chosen to fail alone in a fresh interpreter), c02_harden (K) two kernels alternately. "
+    "(5) The caller keeps and edits: c02_sessions - in-place edits of every passed object between calls (demands, new "
+    "vertex, nets added / removed / extended, chips killed / revived, capacities, constraints), results cleared / "
+    "overwritten by the caller, kept results re-read at the end of the session (a placement that was feasible when "
+    "returned and reads infeasible later: key returned-placement-changed-later; changed but still feasible: tagged); "
+    "c02_harden (L) generators consumed lazily, alternately, abandoned. "
+    "(6) Faults then continued use: c02_sessions - the caller's RNG, callback or kernel raises at its k-th use; the "
+    "injected exception passing through is accepted (any other outcome is tagged, not judged: the property does not "
+    "speak about failing callbacks), the same objects are used afterwards and judged as usual. The placers talk to "
+    "nothing else that can fail. "
+    "(7) Configuration: number of resource types 0-3, per-chip resource exceptions, dead chips, dead links incl. no "
+    "wrap-around (variants: links), machine sizes 1x1 .. 3000x1; nothing else of the machine is read by the placers. "
+    "(8) Non-termination: every placer call runs under common.cpu_limit (10 s; 30-120 s for anneals; lowered after "
+    "hangs): sequential family and random placer - the model is proved / structurally terminating - are reported "
+    "under did-not-return, the annealer (schedule not modelled) as a broken correspondence.")
+
 DOCUMENTED = ("InsufficientResourceError", "InvalidConstraintError")
 
 
@@ -61,7 +102,7 @@ def _consume(c02, rng, gens, twin, eager, fns):
                     break
             steps += 1
             if gens[twin] is g and len(g[2]) >= len(eager[g[0]]) // 2 and not g[3]:
-                g[1].close()                     # abandoned half-way
+                getattr(g[1], "close", lambda: None)()      # abandoned half-way
                 g[3] = "abandoned"
             if rng.random() < 0.1:
                 list(fns[rng.choice(sorted(fns))]())        # other work in between
@@ -291,7 +332,7 @@ def run_one(ctx, h):
 
 def run_harden(ctx):
     rng = ctx.rng
-    n_lazy, n_scale, n_k = ctx.scale(60, 1200), ctx.scale(3, 8), ctx.scale(20, 300)
+    n_lazy, n_scale, n_k = ctx.scale(60, 400), ctx.scale(3, 8), ctx.scale(20, 100)
     if ctx.extended:
         n_lazy, n_k = n_lazy * 4, n_k * 4
     for _ in range(n_lazy):
